@@ -239,12 +239,12 @@ theorem cache_history_irrelevant {κ ν} [BEq κ] [LawfulBEq κ] (f : κ → ν)
   exact (cache_transparent f _ k (this ks c hinv)).1
 
 -- Non-vacuity
-def exBuild : Build :=
+def exBuildCheck : Build :=
   { errors := 0, diag := some ("d.dot", [9]), codegenOk := true, libParses := true,
     rootPath := "Cargo.toml", rootEdit := fun x => x, sdkManifestPath := "sdk/Cargo.toml",
     sdkEdit := fun _ => [1], libPath := "sdk/src/lib.rs", lib := [2] }
 -- only the diagnostics file is missing: `--check` fails and (check_pure) writes nothing
-example : (generate exBuild .check
+example : (generate exBuildCheck .check
     (FS.ofList [("Cargo.toml", ⟨[], 1⟩), ("sdk/Cargo.toml", ⟨[1], 3⟩), ("sdk/src/lib.rs", ⟨[2], 5⟩)])).exit = 1 := by
   decide
 example : (persistIfChanged (FS.ofList [("a", ⟨[1], 4⟩)]) "a" [1]).get "a" = some ⟨[1], 4⟩ ∧
